@@ -1010,7 +1010,7 @@ def handshake_first_byte_rule(fx, v, prop='C19'):
             for cb in range(256):
                 sval = cb if cb < 128 else cb - 256          # std::string holds (signed) char
 
-                def cv(x, sval=sval):
+                def cv(x, env_=None, sval=sval):
                     if _first_char_of(x, '_buffer_ptr'):
                         hits[0] += 1
                         return sval
